@@ -314,6 +314,18 @@ def replay(case):
     if row[0] == 'close_unblocks':
         r = check_close_unblocks(*row[1:])
         return r and '%s: %s' % r
+    if row[0] == 'close_explore':
+        import random as _r
+        from .. import portrun
+        kind, name, sched = row[1:]
+        run = portrun.run_program(kind, [], CLOSE_PROGRAMS[name], schedule=sched, rng=_r.Random(0), policy='stay',
+                                  record=True, budget=300)
+        r = judge_close(kind, CLOSE_PROGRAMS[name], run)
+        return r and '%s: %s' % r
+    if row[0] == 'multiburst':
+        from . import c18
+        v = c18.check_multi_member_burst(row[1])
+        return v and v[0][2]
     if row[0] == 'socket':
         from . import c18
         r = c18.replay_link(*row[1:])
@@ -341,6 +353,88 @@ def check_close_unblocks(kind, rseed, policy):
     if r1 is None or r1[0]['k'] not in ('raise:OSError', 'raise:ValueError'):
         return 'receive-not-ended-by-close', 'the waiting receive() ended with %r' % (r1,)
     return None
+
+
+# ---- close() racing with the other calls: every schedule with <= K preemptions ----
+
+def _op(o, m=0):
+    return {'op': o, 'm': m, 'lane': 1 if o == 'send' else 0}
+
+
+CLOSE_PROGRAMS = {
+    'idle-recv': [[_op('recv')], [_op('close')]],
+    'send-recv': [[_op('send', 1)], [_op('recv')], [_op('close')]],
+    'send2-recv2': [[_op('send', 1), _op('send', 2)], [_op('recv'), _op('recv')], [_op('close')]],
+    'send-poll-close2': [[_op('send', 1)], [_op('poll'), _op('close')], [_op('close')]],
+}
+CLOSE_PLAN_QUICK = [('echo', 'idle-recv', 3), ('device', 'idle-recv', 3), ('ioport', 'idle-recv', 2), ('multi', 'idle-recv', 2),
+                    ('echo', 'send-recv', 2), ('ioport', 'send-recv', 2), ('device', 'send-recv', 1),
+                    ('echo', 'send2-recv2', 1), ('echo', 'send-poll-close2', 2)]
+CLOSE_PLAN_THOROUGH = [('echo', 'idle-recv', 4), ('device', 'idle-recv', 4), ('ioport', 'idle-recv', 3), ('multi', 'idle-recv', 3),
+                       ('echo', 'send-recv', 3), ('ioport', 'send-recv', 3), ('device', 'send-recv', 2), ('multi', 'send-recv', 2),
+                       ('echo', 'send2-recv2', 2), ('ioport', 'send2-recv2', 2), ('echo', 'send-poll-close2', 3),
+                       ('ioport', 'send-poll-close2', 2)]
+CLOSE_SHARDS = 8
+
+
+def judge_close(kind, prog, run):
+    """Lifecycle verdict of one explored run (None or (key, detail))."""
+    if run['hung']:
+        return 'close-race/hang', 'threads %r never finished' % (run['hung'],)
+    got, sent_ok = [], []
+    for ti, ops in enumerate(prog):
+        res = run['results'].get(ti + 1) or []
+        if len(res) != len(ops):
+            return 'close-race/unfinished', 'thread %d made %d of %d calls' % (ti + 1, len(res), len(ops))
+        for op, r in zip(ops, res):
+            k = r['k']
+            if op['op'] == 'close' and k != 'ok':
+                return 'close-race/close-raises', 'close() ended with %s' % k
+            if op['op'] == 'send':
+                if k == 'ok':
+                    sent_ok.append(op['m'])
+                elif k != 'raise:ValueError':
+                    return 'close-race/send-raises', 'send() ended with %s' % k
+            if op['op'] == 'recv' and k not in ('msg', 'raise:OSError', 'raise:ValueError'):
+                return 'close-race/receive-result', 'blocking receive() ended with %s' % k
+            if op['op'] == 'poll' and k not in ('msg', 'none'):
+                return 'close-race/poll-result', 'poll() ended with %s' % k
+            if k == 'msg':
+                got += r['v']
+    rest = run.get('drained')
+    if rest is None or any(not isinstance(x, int) for x in rest):
+        return 'close-race/drain-raises', 'draining the closed port: %r' % (rest,)
+    allgot = got + rest
+    if len(set(allgot)) != len(allgot) or not set(allgot) <= set(sent_ok):
+        return 'close-race/duplicated-or-invented', 'sent %r; received %r, drained %r' % (sent_ok, got, rest)
+    if kind == 'echo' and sorted(allgot) != sorted(sent_ok):
+        # an EchoPort takes a message in at send(): it must be handed out, before or after close
+        return 'close-race/taken-in-but-lost', 'sent %r; received %r, drained after close %r' % (sent_ok, got, rest)
+    if got != sorted(got):
+        return 'close-race/order', 'received %r' % (got,)
+    return None
+
+
+def close_explore_worker(jobs):
+    from .. import portrun
+    res = {'n': 0, 'viol': [], 'samples': [], 'counts': {}}
+    for kind, name, k, shard, limit in jobs:
+        prog = CLOSE_PROGRAMS[name]
+
+        def judge(run, sched):
+            r = judge_close(kind, prog, run)
+            if r and len(res['viol']) < 6:
+                res['viol'].append(('lifecycle/%s/%s' % (r[0], kind),
+                                    {'row': ['close_explore', kind, name, sched]},
+                                    '%s (program %s, schedule %r)' % (r[1], name, sched)))
+        n, complete = portrun.explore(kind, [], prog, k, limit=limit, judge=judge, shard=(shard, CLOSE_SHARDS),
+                                      budget=300)
+        res['n'] += n
+        key = 'close_race_%s_%s' % (kind, name)
+        res['counts'][key] = res['counts'].get(key, 0) + n
+        if not complete:
+            res['counts']['close_race_cut_at_limit'] = 1
+    return res
 
 
 def check_server_close_while_receiving():
@@ -445,6 +539,12 @@ def run(ctx):
         ctx.replayed += 1
         if r:
             ctx.violation('lifecycle/%s/%s' % (r[0], kind), {'row': ['close_unblocks', kind, rseed, policy]}, r[1])
+    # ... and every schedule with a bounded number of preemptions of close() racing with
+    # send / receive / poll / a second close on the real ports
+    plan = CLOSE_PLAN_THOROUGH if thorough else CLOSE_PLAN_QUICK
+    pr2 = core.ParallelReplay(ctx, close_explore_worker, batch_size=1)
+    pr2.map([[(kind, name, k, sh, 40000 if thorough else 2500)] for kind, name, k in plan for sh in range(CLOSE_SHARDS)])
+    ctx.note('close_race_schedules', pr2.n)
     r, skipped = check_server_close_while_receiving()
     ctx.replayed += 1
     if skipped:
